@@ -382,6 +382,143 @@ class Gen:
     def case_C08(self, idx): return self._cons_case(["fdc", "fdc", "csys", "scramble"], ncalls=6)
     def case_C10(self, idx): return self._cons_case(["imp", "imp", "scramble"], ncalls=5)
 
+    # ------------------------------------------------------------------ C07: twin descriptions of one mechanism
+    EUL_AXES = {"ezyx": [2, 1, 0], "exyz": [0, 1, 2], "eyxz": [1, 0, 2], "ezxy": [2, 0, 1]}
+    def _fmt_add(self, parent, nm, E, rr, b, jt, virt=0):
+        return "add %s %d E %s r %s body %s %s %s %d joint %s" % (
+            parent, nm, " ".join(fl(x) for row in E for x in row), " ".join(fl(x) for x in rr),
+            fl(b["m"]), " ".join(fl(x) for x in b["c"]), " ".join(fl(x) for row in b["I"] for x in row), virt, jt)
+    def _join(self, a, E, rr, b):
+        """rigid union of body a and body b mounted at (E, rr) in a's frame (parallel-axis theorem, floats)"""
+        F = lambda M: [[float(x) for x in row] for row in M]
+        E = F(E); rr = [float(x) for x in rr]
+        T3 = lambda M: [[M[j][i] for j in range(3)] for i in range(3)]
+        mm = lambda A, B: [[sum(A[i][k] * B[k][j] for k in range(3)) for j in range(3)] for i in range(3)]
+        mv = lambda A, v: [sum(A[i][k] * v[k] for k in range(3)) for i in range(3)]
+        m1, m2 = float(a["m"]), float(b["m"])
+        c1 = [float(x) for x in a["c"]]; c2 = [x + y for x, y in zip(mv(T3(E), [float(x) for x in b["c"]]), rr)]
+        I1 = F(a["I"]); I2 = mm(mm(T3(E), F(b["I"])), E)
+        m = m1 + m2; c = [(m1 * x + m2 * y) / m for x, y in zip(c1, c2)]
+        def pa(ms, d):
+            dd = sum(x * x for x in d)
+            return [[ms * ((dd if i == j else 0.0) - d[i] * d[j]) for j in range(3)] for i in range(3)]
+        P1 = pa(m1, [x - y for x, y in zip(c1, c)]); P2 = pa(m2, [x - y for x, y in zip(c2, c)])
+        I = [[I1[i][j] + P1[i][j] + I2[i][j] + P2[i][j] for j in range(3)] for i in range(3)]
+        return dict(m=m, c=c, I=I)
+    def case_C07(self, idx):
+        r = self.r
+        var = r.choice(["emu", "chain", "floatsplit", "premerge", "custom", "reorder"])
+        self.count("calls", "twin_" + var)
+        I3 = [[Fr(1), Fr(0), Fr(0)], [Fr(0), Fr(1), Fr(0)], [Fr(0), Fr(0), Fr(1)]]
+        special = {"emu": ["ezyx", "exyz", "eyxz", "ezxy", "txyz"], "chain": ["ezyx", "exyz", "eyxz", "ezxy", "txyz"], "floatsplit": ["float"],
+                   "premerge": ["fixed"], "custom": ["revx", "ezyx"], "reorder": []}[var]
+        filler = ["revx", "revy", "revz", "rev", "pris", "axis_hel", "ezyx", "txyz"] + ([] if var == "reorder" else ["sph"])
+        n = r.randint(2, 5)
+        sp_at = r.randrange(n) if special else -1
+        if var == "premerge" and sp_at == 0: sp_at = 1 if n > 1 else 0
+        nodes = []
+        for k in range(n):
+            kind = r.choice(special) if k == sp_at else r.choice(filler)
+            parent = -1 if k == 0 else (r.randrange(k) if r.random() < 0.8 else -1)
+            if var == "premerge" and k == sp_at: parent = r.randrange(k)
+            if var == "premerge" and parent >= 0 and nodes[parent]["kind"] == "fixed": parent = nodes[parent]["parent"]
+            jt, ck = self.joint(kind)
+            nodes.append(dict(kind=kind, parent=parent, E=self.rot(), r=[self.dy(-1, 1) for _ in range(3)], body=self.body(), jt=jt, ck=ck))
+            self.count("joint_kinds", kind)
+        if var == "reorder":
+            # make sure there are two sibling branches
+            if not any(nodes[a]["parent"] == nodes[b]["parent"] for a in range(n) for b in range(a + 1, n)):
+                jt, ck = self.joint("revy"); nodes.append(dict(kind="revy", parent=nodes[-1]["parent"], E=self.rot(), r=[self.dy(-1, 1) for _ in range(3)], body=self.body(), jt=jt, ck=ck)); n += 1
+        g = [self.dy(-10, 10) for _ in range(3)]
+        grav = "gravity " + " ".join(fl(x) for x in g)
+        null = self.body(massless=True)
+
+        def render(variant):
+            """-> lines, opidx (node -> op index of its body, None if it has none), qpos (node -> first q index), ndof"""
+            lines = []; opidx = {}; qpos = {}; nops = 0; nq = 0; sph = []
+            order = list(range(n))
+            if variant == "reorder":
+                # a different topological order: children of a common parent visited in another order
+                order = []; kids = {}
+                for k, nd in enumerate(nodes): kids.setdefault(nd["parent"], []).append(k)
+                def visit(p):
+                    ch = list(kids.get(p, [])); ch.reverse()
+                    for c in ch: order.append(c); visit(c)
+                visit(-1)
+            merged = {}
+            if variant == "premerge":
+                nd = nodes[sp_at]; par = nd["parent"]
+                merged[par] = self._join(nodes[par]["body"], nd["E"], nd["r"], nd["body"])
+            for k in order:
+                nd = nodes[k]; pref = "base" if nd["parent"] < 0 else str(opidx[nd["parent"]])
+                body = merged.get(k, nd["body"]); kind = nd["kind"]
+                qpos[k] = nq
+                if variant == "premerge" and k == sp_at: opidx[k] = None; continue
+                if variant == "emu" and k == sp_at:
+                    ax = []
+                    if kind == "txyz": ax = [[Fr(0)] * 3 + [Fr(int(i == j)) for j in range(3)] for i in range(3)]
+                    else: ax = [[Fr(int(a == j)) for j in range(3)] + [Fr(0)] * 3 for a in self.EUL_AXES[kind]]
+                    jt = "emu 3 " + " ".join(" ".join(fl(x) for x in a) for a in ax)
+                    lines.append(self._fmt_add(pref, 0, nd["E"], nd["r"], body, jt)); opidx[k] = nops; nops += 1
+                elif variant == "chain" and k == sp_at:
+                    names = ["revx", "revy", "revz"]
+                    jts = ["pris 1.0 0.0 0.0", "pris 0.0 1.0 0.0", "pris 0.0 0.0 1.0"] if kind == "txyz" else [names[a] for a in self.EUL_AXES[kind]]
+                    lines.append(self._fmt_add(pref, 0, nd["E"], nd["r"], null, jts[0], virt=1)); nops += 1
+                    lines.append(self._fmt_add(str(nops - 1), 0, I3, [Fr(0)] * 3, null, jts[1], virt=1)); nops += 1
+                    lines.append(self._fmt_add(str(nops - 1), 0, I3, [Fr(0)] * 3, body, jts[2])); opidx[k] = nops; nops += 1
+                elif variant == "floatsplit" and k == sp_at:
+                    lines.append(self._fmt_add(pref, 0, nd["E"], nd["r"], null, "txyz", virt=1)); nops += 1
+                    lines.append(self._fmt_add(str(nops - 1), 0, I3, [Fr(0)] * 3, body, "sph")); opidx[k] = nops; nops += 1
+                elif variant == "custom" and k == sp_at:
+                    lines.append(self._fmt_add(pref, 0, nd["E"], nd["r"], body, {"revx": "crevx", "ezyx": "cezyx"}[kind])); opidx[k] = nops; nops += 1
+                else:
+                    lines.append(self._fmt_add(pref, 0, nd["E"], nd["r"], body, nd["jt"])); opidx[k] = nops; nops += 1
+                for j, c in enumerate(nd["ck"]):
+                    if c == "s" and (j == 0 or nd["ck"][j - 1] != "s"): sph.append(nq + j)
+                nq += len(nd["ck"])
+            return lines, opidx, qpos, nq, sph, order
+
+        LA, opA, qpA, nq, sphA, _ = render("plain")
+        LB, opB, qpB, nqB, sphB, orderB = render(var)
+        coordsA = []
+        for nd in nodes: coordsA += nd["ck"]
+        # coordinate permutation A index -> B index
+        perm = list(range(nq))
+        for k, nd in enumerate(nodes):
+            for j in range(len(nd["ck"])): perm[qpA[k] + j] = qpB[k] + j
+        ident = perm == list(range(nq))
+        out = ["case x", grav] + LA
+        callsA = []; callsB = []
+        usable = [k for k in range(n) if opB[k] is not None]
+        for _ in range(6):
+            rt = r.choice(["id", "fd", "nle", "crba", "com", "ke", "pe", "b2b", "pvel6", "pacc6", "jac6", "zmp", "minv"])
+            if not ident and rt in ("crba", "jac6"): rt = "id"
+            if sphA and not ident: rt = "ke"
+            self.count("calls", rt)
+            q, qd, qdd, tau = self.state(coordsA, sphA)
+            def pv(v):   # permuted vector for B
+                w = [0.0] * len(v)
+                for i in range(nq): w[perm[i]] = v[i]
+                for i in range(nq, len(v)): w[i] = v[i]
+                return w
+            k = r.choice(usable); pt = self.pt()
+            dA = dict(rt=rt, Q=self.vec(q), QD=self.vec(qd), QDD=self.vec(qdd), TAU=self.vec(tau), flag=1, ref=str(opA[k]), pt=pt, F="F 0", has=True,
+                      n="0.0 0.0 1.0", p="0.1 -0.2 0.3")
+            dB = dict(dA); dB.update(Q=self.vec(pv(q)), QD=self.vec(pv(qd)), QDD=self.vec(pv(qdd)), TAU=self.vec(pv(tau)), ref=str(opB[k]))
+            callsA.append(self.render(dA)); callsB.append((self.render(dB), rt))
+        base = len(out) - 1          # seq of the first A call
+        out += callsA + ["newmodel", grav] + LB
+        baseB = len(out) - 1
+        labs = {"id": ["tau"], "fd": ["qdd"], "nle": ["nle"], "crba": ["H"], "com": ["mass", "com", "comvel", "angmom", "comacc", "dangmom"], "ke": ["ke"],
+                "pe": ["pe"], "b2b": ["b2b"], "pvel6": ["pvel6"], "pacc6": ["pacc6"], "jac6": ["jac6"], "zmp": ["zmp"], "minv": ["qdd"]}
+        for i, (cl, rt) in enumerate(callsB):
+            out.append(cl)
+            for lb in labs[rt]:
+                if rt in ("id", "fd", "nle", "minv") and not ident: self.meta["same"].append((base + i, baseB + i, lb, perm))
+                else: self.meta["same"].append((base + i, baseB + i, lb))
+        self.meta["nontrivial"] = True
+        return out
+
     def case_C14(self, idx):
         """construction sequences with a rejected call injected; dump before and after every add"""
         r = self.r
